@@ -105,17 +105,20 @@ def parseConstant (token : List Char) : Option Int :=
     | some ds => fromStrRadix ds 16
     | none => if token.head? = some '0' then fromStrRadix token 8 else fromStrRadix token 10
 
+/-- the notation rules of `parse_integer`: the digits and their radix -/
+def radixSplit (magnitude : List Char) : List Char × Nat :=
+  match stripPrefix ['0', 'X'] magnitude with
+  | some ds => (ds, 16)
+  | none =>
+    match stripPrefix ['0', 'x'] magnitude with
+    | some ds => (ds, 16)
+    | none => if magnitude.head? = some '0' then (magnitude, 8) else (magnitude, 10)
+
 /-- `parse_integer` of eval.rs: optional sign, then the same notation as a constant -/
 def parseInteger (value : List Char) : Option Int :=
   let neg := value.head? = some '-'
   let magnitude := if value.head? = some '-' ∨ value.head? = some '+' then value.tail else value
-  let dr : List Char × Nat :=
-    match stripPrefix ['0', 'X'] magnitude with
-    | some ds => (ds, 16)
-    | none =>
-      match stripPrefix ['0', 'x'] magnitude with
-      | some ds => (ds, 16)
-      | none => if magnitude.head? = some '0' then (magnitude, 8) else (magnitude, 10)
+  let dr := radixSplit magnitude
   if dr.1.head?.any isAsciiAlnum then
     fromStrRadix (if neg then '-' :: dr.1 else dr.1) dr.2
   else none
@@ -542,7 +545,8 @@ inductive Outcome where
 
 /-- `ast::parse(PeekableTokens::from(expression))` -/
 def parse (src : List Char) : Except SynErr (List Ast) :=
-  parseToks (2 * src.length + 4) (tokenize (src.length + 1) src)
+  let toks := tokenize (src.length + 1) src
+  parseToks (2 * toks.length + 2) toks
 
 def Outcome.ofRes : Res (Int × Env) → Outcome
   | .ok (v, env) => .value v env
